@@ -39,6 +39,7 @@ const MODELS: &[(&str, &str)] = &[
     ("X-bytes-then-msgs", "the waiter parks held back by bytes; another thread then brings the message count to its limit and only then frees the bytes; polled again after that thread was joined, the waiter is still pending (and resumes once both counts are below their limits)"),
     ("X-msgs-then-bytes", "mirror image: held back by messages; then bytes reach their limit and only then the messages are freed"),
     ("D-dec-races-inc", "the controller starts ONE SHORT of its message limit (so there is space): a dec, an inc that reaches the limit and a waiter run concurrently; whatever the order, there is space in the end and the waiter returns (a dec that decides whether to notify from a sample taken before it decrements loses this wake-up)"),
+    ("E-two-decs", "the controller is over BOTH limits by more than one release (limits 10 bytes / 2 messages, 15 bytes / 3 messages outstanding): two decs of (5, 1) run concurrently with a waiter; afterwards (5, 1) is below both limits and the waiter returns (a dec that judges from the values its own two decrements returned sees a torn state and may skip the notification)"),
     ("H-huge-counts", "byte counts of several GiB and message counts near u32::MAX (values that do not fit 32 bits): 2 waiters are released exactly when both counts are below their limits, under concurrent inc/dec"),
 ];
 
@@ -191,6 +192,25 @@ fn run_model(name: &str, pb: Option<usize>) {
                 fc.dec(10, 1); // frees it again (net effect of the two: one message outstanding)
                 op();
                 i.join().unwrap();
+                w.join().unwrap();
+            }
+            "E-two-decs" => {
+                let fc = Arc::new(flow_control::create(10, 2));
+                fc.inc(15, 3);
+                op();
+                let fcw = fc.clone();
+                let w = loom::thread::spawn(move || {
+                    loom::future::block_on(fcw.wait_for_available_space());
+                    op();
+                });
+                let fcd = fc.clone();
+                let d = loom::thread::spawn(move || {
+                    fcd.dec(5, 1);
+                    op();
+                });
+                fc.dec(5, 1);
+                op();
+                d.join().unwrap();
                 w.join().unwrap();
             }
             "H-huge-counts" => {
@@ -396,9 +416,9 @@ fn check(tier: &str) -> i32 {
     let thorough = tier == "thorough";
     // (model, preemption bound, wall cap s)
     let plan: Vec<(&str, usize, u64)> = if thorough {
-        vec![("A1", 6, 900), ("A2", 3, 1500), ("C2", 5, 900), ("F1", 6, 900), ("B-bytes-stay-full", 6, 600), ("B-msgs-stay-full", 6, 600), ("G3", 3, 1500), ("X-bytes-then-msgs", 6, 600), ("X-msgs-then-bytes", 6, 600), ("H-huge-counts", 4, 900), ("D-dec-races-inc", 5, 600)]
+        vec![("A1", 6, 900), ("A2", 3, 1500), ("C2", 5, 900), ("F1", 6, 900), ("B-bytes-stay-full", 6, 600), ("B-msgs-stay-full", 6, 600), ("G3", 3, 1500), ("X-bytes-then-msgs", 6, 600), ("X-msgs-then-bytes", 6, 600), ("H-huge-counts", 4, 900), ("D-dec-races-inc", 5, 600), ("E-two-decs", 5, 600)]
     } else {
-        vec![("A1", 3, 120), ("A2", 2, 120), ("C2", 3, 120), ("F1", 3, 120), ("B-bytes-stay-full", 3, 120), ("B-msgs-stay-full", 3, 120), ("G3", 2, 120), ("X-bytes-then-msgs", 3, 120), ("X-msgs-then-bytes", 3, 120), ("H-huge-counts", 2, 120), ("D-dec-races-inc", 3, 120)]
+        vec![("A1", 3, 120), ("A2", 2, 120), ("C2", 3, 120), ("F1", 3, 120), ("B-bytes-stay-full", 3, 120), ("B-msgs-stay-full", 3, 120), ("G3", 2, 120), ("X-bytes-then-msgs", 3, 120), ("X-msgs-then-bytes", 3, 120), ("H-huge-counts", 2, 120), ("D-dec-races-inc", 3, 120), ("E-two-decs", 3, 120)]
     };
     let mut units = vec![];
     let (mut iters, mut ops, mut violations, mut known_hits) = (0u64, 0u64, 0u64, 0u64);
